@@ -48,7 +48,7 @@ def run(P, R, tier):
         if o.rule == 'C06.e':
             k += 1
             R._add('C05.d', (o.path, o.site.split('::')[-1]), None, o.status, o.detail, construct=o.construct)
-        elif o.rule == 'C06.d' and o.detail.startswith('[C12.'):
+        elif o.rule == 'C06.d' and (o.detail.startswith('[C12.') or '_partition_bounds' in o.detail or '_partition_bounds' in (o.construct or '')):
             # the Dask join zips every partition with ITS row of the partition bounds: rows numbered in partition order, for the partitions that were kept
             R._add('C05.d', (o.path, o.site.split('::')[-1]), None, o.status, 'partitions are joined against the right rows selected by their own bounds: ' + o.detail, construct=o.construct)
     R.floor('C05.d', 'Dask sjoin obligations', k, 3)
